@@ -73,3 +73,4 @@ fn c15_insert_key_enforces_order() {
 fn stub_lossy(_v: &[u8]) -> std::borrow::Cow<'_, str> {
     std::borrow::Cow::Borrowed("")
 }
+
